@@ -13,6 +13,7 @@
      `blocks_disconnected(fork_point)`.
    No Mathlib; everything here is executable (the driver runs these very functions). -/
 import LdkModel.Generated.Consts
+import LdkModel.Generated.ChainSyncConsts
 namespace Ldk.ChainSync
 open Ldk
 
@@ -312,8 +313,7 @@ def phase1 (s : Source) (best : Hdr) : List Locator → Cache → Nat → List H
       let r := phase1 s best ls (cacheBlocksDisconnected c1 true d.common) req1 most'
       { r with per := (some d.common, disc) :: r.per }
 
-/-- init.rs `MAX_BLOCKS_AT_ONCE` (`#[cfg(not(test))]` value 6 * 6) -/
-def MAX_BLOCKS_AT_ONCE : Nat := 36
+-- `MAX_BLOCKS_AT_ONCE` (init.rs, `#[cfg(not(test))]` value) is generated: Generated/ChainSyncConsts.lean
 
 /-- all fetches of one batch are issued (MultiResultFuturePoller) before any result is looked at -/
 def fetchAll (s : Source) : List Hdr → Nat → Bool × Nat
@@ -441,6 +441,17 @@ def syncTip (res : SyncRes) (new old : Hdr) : Hdr :=
   | .ok => new
   | .errNone => old
   | .errAt t => t
+
+/-- element-wise relation between two lists of the same length -/
+inductive Forall2 {α β : Type} (R : α → β → Prop) : List α → List β → Prop
+  | nil : Forall2 R [] []
+  | cons {a : α} {b : β} {l1 : List α} {l2 : List β} : R a b → Forall2 R l1 l2 → Forall2 R (a :: l1) (b :: l2)
+
+/-- the listener's `BlockLocator` `l` describes tree block `b`: it carries `b`'s hash, and every
+    candidate hash (the tip itself or a `previous_blocks` entry) that names a block of the tree names
+    an ancestor of `b` -/
+def LocatorOk (t : Tree) (l : Locator) (b : Hdr) : Prop :=
+  InTree t b ∧ l.hash = b.hash ∧ ∀ d h x, (d, h) ∈ l.candidates → hdrOf t h = some x → x ∈ anc t b
 
 /-- a source that answers every request and knows every block of its tree -/
 def Source.Healthy (s : Source) : Prop := (∀ k, s.fails k = false) ∧ (∀ h, s.hidden h = false)
